@@ -55,10 +55,12 @@ VARIABLES
   \* main
   mpc, ret, flushed,
   \* history
-  fault
+  fault,
+  \* input arrival (tail -f): lines of the fed file delivered so far; end of input delivered
+  avail, fedEof
 
 vars == <<cfg, lpc, lpos, lbuf, lc, lclosed, rpc, rfile, rbuf, ch, dd, ie, de, dw,
-          vpc, vcur, vpos, vout, vs, teef, teeclosed, wpc, wcount, out, mpc, ret, flushed, fault>>
+          vpc, vcur, vpos, vout, vs, teef, teeclosed, wpc, wcount, out, mpc, ret, flushed, fault, avail, fedEof>>
 
 N == Len(cfg.chain)
 Verb(i) == cfg.chain[i]
@@ -88,6 +90,7 @@ InitWith(c) ==
   /\ wpc = "recv" /\ wcount = 0 /\ out = <<>>
   /\ mpc = "select" /\ ret = "none" /\ flushed = <<>>
   /\ fault = FALSE
+  /\ avail = 0 /\ fedEof = FALSE
 
 Init == \E c \in Configs : InitWith(c)
 
@@ -97,18 +100,39 @@ Init == \E c \in Configs : InitWith(c)
 UL == UNCHANGED <<lpc, lpos, lbuf, lc, lclosed>>
 UR == UNCHANGED <<rpc, rfile, rbuf>>
 UV == UNCHANGED <<vpc, vcur, vpos, vout, vs, teef, teeclosed>>
-UW == UNCHANGED <<wpc, wcount, out>>
-UM == UNCHANGED <<mpc, ret, flushed>>
+UF == UNCHANGED <<avail, fedEof>>
+UW == UNCHANGED <<wpc, wcount, out>> /\ UF
+UM == UNCHANGED <<mpc, ret, flushed>> /\ UF
 UE == UNCHANGED <<ie, de, dw>>
 
 CurFile == cfg.files[rfile]
 
-\* Local reading up to the next poll point (a full batch) or end of file.
-LFillPc(pos) == IF Len(CurFile) - pos + 1 >= cfg.b THEN "poll" ELSE "last"
-LFillBuf(pos) == IF Len(CurFile) - pos + 1 >= cfg.b
-                 THEN SubSeq(CurFile, pos, pos + cfg.b - 1)
-                 ELSE SubSeq(CurFile, pos, Len(CurFile))
-LFillPos(pos) == IF Len(CurFile) - pos + 1 >= cfg.b THEN pos + cfg.b ELSE Len(CurFile) + 1
+\* Local reading up to the next poll point (a full batch) or end of file.  When the input is FED (cfg.feed: lines of the
+\* single file arrive one at a time, the pipe is held open) the line reader blocks in its read ("wait") until a full
+\* batch is available or end of input has been delivered.
+Readable(f, pos) == IF cfg.feed THEN avail - pos + 1 ELSE Len(f) - pos + 1
+AtEof(f) == IF cfg.feed THEN fedEof ELSE TRUE
+FillPc(f, pos) == IF Readable(f, pos) >= cfg.b THEN "poll" ELSE IF AtEof(f) THEN "last" ELSE "wait"
+FillBuf(f, pos) == IF Readable(f, pos) >= cfg.b THEN SubSeq(f, pos, pos + cfg.b - 1)
+                   ELSE IF AtEof(f) THEN SubSeq(f, pos, Len(f)) ELSE <<>>
+FillPos(f, pos) == IF Readable(f, pos) >= cfg.b THEN pos + cfg.b ELSE IF AtEof(f) THEN Len(f) + 1 ELSE pos
+LFillPc(pos) == FillPc(CurFile, pos)
+LFillBuf(pos) == FillBuf(CurFile, pos)
+LFillPos(pos) == FillPos(CurFile, pos)
+
+\* the blocked read returns: a full batch has arrived, or end of input (no hook: the read is inside lineReader.Read)
+LWake == /\ Alive /\ lpc = "wait" /\ (Readable(CurFile, lpos) >= cfg.b \/ fedEof)
+         /\ lpc' = LFillPc(lpos) /\ lbuf' = LFillBuf(lpos) /\ lpos' = LFillPos(lpos)
+         /\ UNCHANGED <<cfg, lc, lclosed, ch, dd, fault>> /\ UR /\ UV /\ UW /\ UM /\ UE
+\* the environment delivers one more line / closes the input
+Feed == /\ cfg.feed /\ Len(cfg.files) = 1 /\ avail < Len(cfg.files[1]) /\ ~fedEof
+        /\ avail' = avail + 1
+        /\ UNCHANGED <<cfg, lpc, lpos, lbuf, lc, lclosed, rpc, rfile, rbuf, ch, dd, ie, de, dw, vpc, vcur, vpos, vout, vs, teef, teeclosed,
+                       wpc, wcount, out, mpc, ret, flushed, fault, fedEof>>
+FeedEof == /\ cfg.feed /\ Len(cfg.files) = 1 /\ avail = Len(cfg.files[1]) /\ ~fedEof
+           /\ fedEof' = TRUE
+           /\ UNCHANGED <<cfg, lpc, lpos, lbuf, lc, lclosed, rpc, rfile, rbuf, ch, dd, ie, de, dw, vpc, vcur, vpos, vout, vs, teef, teeclosed,
+                          wpc, wcount, out, mpc, ret, flushed, fault, avail>>
 
 \* lines.pollNone / lines.pollDone
 LPollNone == /\ Alive /\ lpc = "poll" /\ dd[0] = 0
@@ -136,10 +160,9 @@ LLast == /\ Alive /\ lpc = "last" /\ Len(lc) < cfg.b
 RFileStart == /\ Alive /\ rpc = "next" /\ rfile < Len(cfg.files) /\ ~IsMissing(cfg.files[rfile + 1])
               /\ rfile' = rfile + 1 /\ rpc' = "recv"
               /\ LET f == cfg.files[rfile + 1]
-                     full == Len(f) >= cfg.b
-                 IN /\ lpc' = IF full THEN "poll" ELSE "last"
-                    /\ lbuf' = IF full THEN SubSeq(f, 1, cfg.b) ELSE f
-                    /\ lpos' = IF full THEN cfg.b + 1 ELSE Len(f) + 1
+                 IN /\ lpc' = FillPc(f, 1)
+                    /\ lbuf' = FillBuf(f, 1)
+                    /\ lpos' = FillPos(f, 1)
               /\ lc' = <<>> /\ lclosed' = FALSE
               /\ UNCHANGED <<cfg, rbuf, ch, dd, fault>> /\ UV /\ UW /\ UM /\ UE
 \* reader.openErrEnd(name): blocking post of the open error; carry on with the next file
@@ -404,7 +427,7 @@ MFlush == /\ mpc = "flush"
 
 Terminated == mpc = "exit" /\ UNCHANGED vars
 
-LNext == LPollNone \/ LPollDone \/ LSend \/ LLast
+LNext == LPollNone \/ LPollDone \/ LSend \/ LLast \/ LWake
 RNext == RFileStart \/ ROpenErr \/ REos \/ RRecvBatch \/ RRecvClosed \/ RDataErr \/ RSend
 VNext(i) == \/ VRecv(i) \/ VPollNone(i) \/ VPollFlag(i) \/ VFwd(i) \/ VOwn(i) \/ VSend(i)
             \/ VErrPost(i) \/ VErrSend(i) \/ VErrDone(i)
@@ -412,7 +435,8 @@ VNext(i) == \/ VRecv(i) \/ VPollNone(i) \/ VPollFlag(i) \/ VFwd(i) \/ VOwn(i) \/
 WNext == WRecv \/ WErrPost \/ WDone
 MNext == MGotInputErr \/ MGotDataErr \/ MGotDone \/ MDrain1 \/ MDrain2 \/ MFlush
 
-Next == LNext \/ RNext \/ (\E i \in 1..N : VNext(i)) \/ WNext \/ MNext \/ Terminated
+Internal == LNext \/ RNext \/ (\E i \in 1..N : VNext(i)) \/ WNext \/ MNext
+Next == Internal \/ Feed \/ FeedEof \/ Terminated
 
 Spec == Init /\ [][Next]_vars
 FairSpec == Spec /\ WF_vars(LNext) /\ WF_vars(RNext) /\ (\A i \in 1..4 : WF_vars(i <= N /\ VNext(i)))
@@ -452,6 +476,16 @@ FailDeterministic == (mpc = "exit" /\ MustFail(cfg)) => ret = "err"
 \* C04: every run terminates: TLC's deadlock check (the only self-loop is Terminated, after
 \* main returned), plus the liveness property under weak fairness of every goroutine.
 Termination == <>(mpc = "exit")
+
+\* C04, the documented `tail -f` contract: with --records-per-batch 1 and a flush after every record, whenever the input
+\* is held open after k lines and nothing inside mlr can move any more, everything the chain produces for those k lines
+\* has been written (cfg.fflush: what the writer hands to the buffer is flushed at once, so `out` is what is visible)
+TailF == (cfg.feed /\ cfg.fflush /\ cfg.b = 1 /\ ~fedEof /\ ~ENABLED Internal)
+            => out = ApplyUpTo(cfg.chain, N, SubSeq(cfg.files[1], 1, avail))
+
+\* (self-test of the model: the same claim for any batch size must FAIL for b > 1 -- lines wait for a full batch)
+TailFAnyBatch == (cfg.feed /\ cfg.fflush /\ ~fedEof /\ ~ENABLED Internal)
+                   => out = ApplyUpTo(cfg.chain, N, SubSeq(cfg.files[1], 1, avail))
 
 \* at most one flag per done channel, capacities respected
 TypeOK == /\ \A i \in 0..N : dd[i] \in {0, 1} /\ Len(ch[i]) <= Cap(i)
